@@ -5,7 +5,7 @@ from .. import bb, chain as K, gen_chain as GC, common as C
 NAMESPACE = "Rbp.Props.C13"
 REQUIRED = ["parcollect_any_schedule", "model_is_function"]
 LEAN_FILES = ["Rbp/Model/Par.lean", "Rbp/Model/Run.lean"]
-RULE = ("black-box: one data directory (blocks with up to hundreds of txs x up to 200 outputs, so rayon really splits the work) run repeatedly with RAYON_NUM_THREADS in {1,2,3,8,16,64}, also pinned to one CPU (taskset) for contention; "
+RULE = ("black-box: one data directory (blocks with up to hundreds of txs x up to 200 outputs, so rayon really splits the work; among them transactions of > 16 KiB and > 64 KiB) run repeatedly with RAYON_NUM_THREADS in {1,2,3,8,16,64}, also pinned to one CPU (taskset) for contention; "
         "csvdump files / opreturn lines / simplestats report must be byte-identical across runs, unspent and balances rows identical as sets, and equal to the model's; sequences of runs sharing one dump folder pre-seeded with stale *.tmp files and older results; "
         "SHA-256 of every blk*.dat / xor.dat before and after; kv content of the index (hook dumpindex) before and after, and second/third runs on the reopened index; indexes with two or three fully validated tips of equal height re-run 8 times (the choice of the tip must not depend on hash-map iteration order). non-trivial = a block with >= 50 txs or a rerun on shared state; distinct = distinct (scenario, threads, repetition)")
 ASSUMPTIONS = ["partial: rayon's scheduler and LevelDB's recovery are exercised, not modelled"]
@@ -67,6 +67,20 @@ def correspondence(ctx):
                 return b"\xa9\x14" + rr.choice(pool) + b"\x87"
             return GC.spk(rr, c, rr.choice(["p2pkh", "p2sh", "opreturn", "p2pk33", "multisig", "nonstd"]))
         blocks = GC.gen_chain(r, coin, r.randrange(2, 5), max_txs=1, big=r.choice([60, 150, 400 if ctx.thorough() else 90]), max_io=r.choice([3, 30, 200 if i % 2 else 8]), scripts=scripts)
+        # oversize transactions in the middle of the crowd (> 16 KiB by output count, > 64 KiB by one script): whatever a worker
+        # thread keeps between transactions (scratch buffers, stacks) must not leak from a large one into the next
+        tb = blocks[-1]
+        wide = K.Tx([(GC.rb(r, 32), 0, b"\x01\x01", 0xffffffff)], [(j + 1, scripts(r, coin)) for j in range(r.choice([520, 700]))])
+        fat = K.Tx([(GC.rb(r, 32), 1, GC.rb(r, r.choice([17000, 40000])), 0xffffffff)], [(5, b"\x6a\x4e" + (70000).to_bytes(4, "little") + GC.rb(r, 70000)), (6, scripts(r, coin))])
+        tb.txs.insert(len(tb.txs) // 3, wide)
+        tb.txs.insert(2 * len(tb.txs) // 3, fat)
+        blocks[0].txs.insert(1, K.Tx([(GC.rb(r, 32), 2, b"\x01\x02", 0xffffffff)], [(j + 1, scripts(r, coin)) for j in range(600)]))
+        prev = None
+        for b in blocks:
+            if prev is not None:
+                b.prev = prev
+            b.merkle_root = None
+            prev = b.hash()
         s = K.Scenario(coin=coin, callback=cb)
         GC.simple_layout(s, blocks, per_file=2)
         if i % 2:
